@@ -6,6 +6,7 @@ import (
 	"strconv"
 
 	"github.com/tsawler/tabula/core"
+	"github.com/tsawler/tabula/verifhook"
 )
 
 // Operation represents a single content stream operation consisting of an
@@ -81,6 +82,7 @@ func (p *Parser) parseNext() error {
 	}
 
 	p.operandStack = append(p.operandStack, operand)
+	verifhook.Point("cs.operand")
 	return nil
 }
 
